@@ -16,6 +16,7 @@ package symx
 import (
 	"fmt"
 	"go/types"
+	"sync"
 
 	"golang.org/x/tools/go/ssa"
 	"gosx/smt"
@@ -43,8 +44,11 @@ type pdomInfo struct {
 }
 
 var pdomCache = map[*ssa.Function]*pdomInfo{}
+var pdomMu sync.Mutex
 
 func postDominators(fn *ssa.Function) *pdomInfo {
+	pdomMu.Lock()
+	defer pdomMu.Unlock()
 	if p, ok := pdomCache[fn]; ok {
 		return p
 	}
